@@ -114,7 +114,8 @@ def main():
                     for (_, h, _) in held:
                         for lock in total[g]:
                             edges.add((h, lock, "%s -> %s" % (n, g)))
-            d = re.match(r"let\s+(mut\s+)?(\w+)\s*=\s*.*\.\s*(write|read|lock)\(\)\s*;$", s)
+            # `let g = x.write();`, or conditionally taken: `let g = cond.then(|| x.write());`
+            d = re.match(r"let\s+(mut\s+)?(\w+)\s*=\s*.*\.\s*(write|read|lock)\(\)\s*\)?\s*;$", s)
             if d and acqs:
                 held.append((d.group(2), acqs[-1][1], depth))
             for dm in re.finditer(r"(?<![\w\.])drop\((\w+)\)", s):
